@@ -127,3 +127,300 @@ Check C01_dec_close_refuted :
   exists gd ge, gain_of dec w_big 1 = Some gd /\ gain_of exact w_big 1 = Some ge /\
                 (q 1 1000000000 < gd - ge)%Qc.
 Print Assumptions C01_dec_close_refuted.
+
+(* ======================================================================
+   When does rounding NOT matter?  (Proofs/DecTransfer.v)
+
+   Transfer principle.  [arith_le A B]: every operation that succeeds in A
+   returns the same value in B; [op_only A]: the operators of A never reject
+   and panic only with PanicOverflow / PanicDivZero.  Then EVERY function of
+   the ledger model - and so the whole run - returns in B what it returns in
+   A (every row, every rejection, every panic of a constrained-decimal
+   constructor, assertion or missing entry: those depend only on the values),
+   unless A's run ended with a failure of one of A's own operators
+   ([opstopb o = true]); and even then the rows A emitted are a prefix of
+   the rows of B. *)
+From ACB Require Import Model.App Proofs.DecTransfer Proofs.DecCorollaries.
+Local Close Scope Z_scope.
+
+Theorem C01_transfer_principle : forall A B init txs ds o,
+  arith_le A B -> op_only A ->
+  run A init txs = (ds, o) -> opstopb o = false -> run B init txs = (ds, o).
+Proof. exact DecTransfer.transfer_principle. Qed.
+Check C01_transfer_principle : forall A B init txs ds o,
+  arith_le A B -> op_only A ->
+  run A init txs = (ds, o) -> opstopb o = false -> run B init txs = (ds, o).
+Print Assumptions C01_transfer_principle.
+
+Theorem C01_transfer_prefix : forall A B init txs ds o,
+  arith_le A B -> op_only A ->
+  run A init txs = (ds, o) -> exists tl o', run B init txs = (ds ++ tl, o').
+Proof. exact DecTransfer.transfer_prefix. Qed.
+Check C01_transfer_prefix : forall A B init txs ds o,
+  arith_le A B -> op_only A ->
+  run A init txs = (ds, o) -> exists tl o', run B init txs = (ds ++ tl, o').
+Print Assumptions C01_transfer_prefix.
+
+(* the same for the application pipeline (sorting, per-security split,
+   global-split expansion: Model/App.v), which is what the correspondence
+   check runs *)
+Theorem C01_transfer_principle_app : forall A B inits rows l,
+  arith_le A B -> op_only A ->
+  run_app A inits rows = Ok l -> forallb sec_ok l = true -> run_app B inits rows = Ok l.
+Proof. exact DecTransfer.transfer_principle_app. Qed.
+Check C01_transfer_principle_app : forall A B inits rows l,
+  arith_le A B -> op_only A ->
+  run_app A inits rows = Ok l -> forallb sec_ok l = true -> run_app B inits rows = Ok l.
+Print Assumptions C01_transfer_principle_app.
+
+(* [rep]: exact arithmetic that refuses (PanicOverflow) every result that
+   rust_decimal would have to round.  It refines both arithmetics, and one of
+   its operations succeeds exactly on the decimals with at most 28 places and
+   a 96-bit mantissa. *)
+Theorem C01_rep_refines_exact_and_dec : arith_le rep exact /\ arith_le rep dec /\ op_only rep.
+Proof. exact DecTransfer.rep_refines_both. Qed.
+Check C01_rep_refines_exact_and_dec : arith_le rep exact /\ arith_le rep dec /\ op_only rep.
+Print Assumptions C01_rep_refines_exact_and_dec.
+
+Theorem C01_rep_succeeds_iff_representable : forall x : Qc,
+  rep_res x = Ok x <->
+  exists m s, (s <= 28)%nat /\ (Z.abs m <= max_mant)%Z /\ (this x == m # p10 s)%Q.
+Proof. exact DecTransfer.rep_res_iff. Qed.
+Check C01_rep_succeeds_iff_representable : forall x : Qc,
+  rep_res x = Ok x <->
+  exists m s, (s <= 28)%nat /\ (Z.abs m <= max_mant)%Z /\ (this x == m # p10 s)%Q.
+Print Assumptions C01_rep_succeeds_iff_representable.
+
+(* On every history all of whose exact intermediate values are 28-place /
+   96-bit decimals ([run rep] does not stop on an operator failure) the
+   ROUNDED ledger IS the EXACT ledger: every row, every rejection, every site
+   panic.  All exact-arithmetic theorems apply verbatim to the real
+   arithmetic there. *)
+Theorem C01_dec_equals_exact_when_representable : forall init txs ds o,
+  run rep init txs = (ds, o) -> opstopb o = false ->
+  run dec init txs = (ds, o) /\ run exact init txs = (ds, o).
+Proof. exact DecTransfer.dec_equals_exact_when_representable. Qed.
+Check C01_dec_equals_exact_when_representable : forall init txs ds o,
+  run rep init txs = (ds, o) -> opstopb o = false ->
+  run dec init txs = (ds, o) /\ run exact init txs = (ds, o).
+Print Assumptions C01_dec_equals_exact_when_representable.
+
+Theorem C01_app_dec_equals_exact_when_representable : forall inits rows l,
+  run_app rep inits rows = Ok l -> forallb sec_ok l = true ->
+  run_app dec inits rows = Ok l /\ run_app exact inits rows = Ok l.
+Proof. exact DecTransfer.app_dec_equals_exact_when_representable. Qed.
+Check C01_app_dec_equals_exact_when_representable : forall inits rows l,
+  run_app rep inits rows = Ok l -> forallb sec_ok l = true ->
+  run_app dec inits rows = Ok l /\ run_app exact inits rows = Ok l.
+Print Assumptions C01_app_dec_equals_exact_when_representable.
+
+(* in any case the rows emitted before the first non-representable value are
+   rows of both ledgers *)
+Theorem C01_rep_rows_are_common_prefix : forall init txs ds o,
+  run rep init txs = (ds, o) ->
+  exists tld od tle oe, run dec init txs = (ds ++ tld, od) /\ run exact init txs = (ds ++ tle, oe).
+Proof. exact DecTransfer.rep_rows_are_common_prefix. Qed.
+Check C01_rep_rows_are_common_prefix : forall init txs ds o,
+  run rep init txs = (ds, o) ->
+  exists tld od tle oe, run dec init txs = (ds ++ tld, od) /\ run exact init txs = (ds ++ tle, oe).
+Print Assumptions C01_rep_rows_are_common_prefix.
+
+(* C01 itself for the rounded arithmetic, on such histories *)
+Theorem C01_dec_refines_spec_when_representable : forall init txs ds o,
+  run rep init txs = (ds, o) -> opstopb o = false ->
+  Forall (fun t => valid_tx t = true) txs ->
+  run dec init txs = (ds, o) /\
+  map obs_of ds = spec_rows (spec_init init) (effective ds).
+Proof. exact DecCorollaries.dec_refines_spec_when_representable. Qed.
+Check C01_dec_refines_spec_when_representable : forall init txs ds o,
+  run rep init txs = (ds, o) -> opstopb o = false ->
+  Forall (fun t => valid_tx t = true) txs ->
+  run dec init txs = (ds, o) /\
+  map obs_of ds = spec_rows (spec_init init) (effective ds).
+Print Assumptions C01_dec_refines_spec_when_representable.
+
+(* Non-vacuity: seven rows, two affiliates, a USD purchase, a sale at a loss
+   of 5 of 10 shares followed within 30 days by a 5-for-2 split (finite factor
+   2.5) and a repurchase of 4 (1.6 shares before the split): 32% of the loss
+   (-2.608) is superficial and denied, one adjustment row is generated, then a
+   second affiliate, a return of capital and a sale with a gain.  [run rep]
+   accepts all of it, so the rounded and the exact ledger coincide (8 rows). *)
+Local Open Scope Z_scope.
+Definition ex_rep : list tx := [
+  mk 100 (Buy (q 10 1) (q 3 2) (q 1 1) (q 13 10) (q 13 10)) default_aff;
+  mk 140 (Sell (q 5 1) (q 1 2) (q 1 4) (q 1 1) (q 1 1) None) default_aff;
+  mk 145 (Split (q 5 1) (q 2 1) false) default_aff;
+  mk 150 (Buy (q 4 1) (q 1 2) (q 0 1) (q 1 1) (q 1 1)) default_aff;
+  mk 300 (Buy (q 6 1) (q 2 1) (q 0 1) (q 1 1) (q 1 1)) spouse;
+  mk 310 (Roc (q 1 10) (q 1 1)) default_aff;
+  mk 400 (Sell (q 3 1) (q 3 1) (q 0 1) (q 1 1) (q 1 1) None) spouse
+].
+Example C01_rep_nonvacuous :
+  forallb valid_tx ex_rep = true /\
+  opstopb (snd (run rep None ex_rep)) = false /\ snd (run rep None ex_rep) = None /\
+  length (fst (run rep None ex_rep)) = 8%nat /\
+  map (fun d => this (denied_of d)) (fst (run rep None ex_rep))
+  = [0; (-326) # 125; 0; 0; 0; 0; 0; 0]%Q /\
+  run dec None ex_rep = run rep None ex_rep /\ run exact None ex_rep = run rep None ex_rep.
+Proof.
+  assert (Ho : opstopb (snd (run rep None ex_rep)) = false) by (vm_compute; reflexivity).
+  destruct (C01_dec_equals_exact_when_representable None ex_rep _ _
+              (surjective_pairing (run rep None ex_rep)) Ho) as [Hd He].
+  rewrite Hd, He, <- surjective_pairing. vm_compute. repeat split.
+Qed.
+
+(* ... and a history it refuses: 3 shares bought for 10 in all, one sold -
+   the per-share cost 10/3 is not a decimal; there the two ledgers do differ
+   (cost base 6.6666666666666666666666666666 against 20/3) - after the first
+   row, which they share by C01_rep_rows_are_common_prefix. *)
+Definition ex_thirds : list tx := [
+  mk 100 (Buy (q 3 1) (q 3 1) (q 1 1) (q 1 1) (q 1 1)) default_aff;
+  mk 200 (Sell (q 1 1) (q 5 1) (q 0 1) (q 1 1) (q 1 1) None) default_aff ].
+Example C01_rep_refuses_thirds :
+  snd (run rep None ex_thirds) = Some (SPanic PanicOverflow) /\
+  length (fst (run rep None ex_thirds)) = 1%nat /\
+  run dec None ex_thirds <> run exact None ex_thirds.
+Proof.
+  split; [vm_compute; reflexivity|]. split; [vm_compute; reflexivity|].
+  intros H. apply (f_equal (fun r => map (fun d => s_acb (d_post d)) (fst r))) in H.
+  vm_compute in H. discriminate H.
+Qed.
+
+(* ======================================================================
+   One row WITH rounding (Proofs/DecRowError.v).
+   [T j] = 10^j, [u j] = 1/(2 * 10^(28-j)): half a unit of the last place
+   rust_decimal keeps for a result of magnitude at most 10^j. *)
+From ACB Require Import Proofs.DecRowError.
+Local Close Scope Z_scope.
+Local Open Scope Qc_scope.
+
+(* one operation, in terms of the magnitude of its exact result *)
+Theorem C01_rounding_error_by_magnitude : forall (x r : Qc) (j : nat),
+  (j <= 28)%nat -> fit x = Some r -> - T j <= x -> x <= T j ->
+  x - u j <= r /\ r <= x + u j.
+Proof. exact DecRowError.fit_within. Qed.
+Check C01_rounding_error_by_magnitude : forall (x r : Qc) (j : nat),
+  (j <= 28)%nat -> fit x = Some r -> - T j <= x -> x <= T j ->
+  x - u j <= r /\ r <= x + u j.
+Print Assumptions C01_rounding_error_by_magnitude.
+
+(* The cost base after a Buy row, from a rounded and an exact pre-state whose
+   cost bases differ by at most eps: shares, price and commission at most
+   10^k, both exchange rates at most 10, the cost base so far at most
+   10^(2k+1).  Each of the five operations of the arm (price x shares, x rate,
+   commission x rate, their sum, the sum with the old cost base) adds at most
+   half a unit of its last place: the new cost bases differ by at most
+   eps + 10 u(2k) + 4 u(2k+2) = eps + 2.05 * 10^-(26-2k)
+   (k = 6: quantities up to a million, error growth 2.05e-14 per row). *)
+Theorem C01_buy_row_error : forall (k : nat) (eps : Qc) t pre_d pre_e sh aps com rate crate od oe dd de,
+  (2 * k + 2 <= 28)%nat ->
+  t_act t = Buy sh aps com rate crate -> valid_tx t = true ->
+  s_acb pre_d = Some od -> s_acb pre_e = Some oe ->
+  oe - eps <= od -> od <= oe + eps ->
+  sh <= T k -> aps <= T k -> com <= T k -> rate <= T 1 -> crate <= T 1 ->
+  0 <= od -> od <= T (2 * k + 1) ->
+  delta_nonsell dec t pre_d = Ok dd -> delta_nonsell exact t pre_e = Ok de ->
+  exists nd ne,
+    s_acb (d_post dd) = Some nd /\ s_acb (d_post de) = Some ne /\
+    ne = oe + (aps * sh * rate + com * crate) /\
+    ne - (eps + u (2 * k) * T 1 + (1 + 1 + 1 + 1) * u (2 * k + 2)) <= nd /\
+    nd <= ne + (eps + u (2 * k) * T 1 + (1 + 1 + 1 + 1) * u (2 * k + 2)).
+Proof. exact DecRowError.buy_row_error_pow10. Qed.
+Check C01_buy_row_error : forall (k : nat) (eps : Qc) t pre_d pre_e sh aps com rate crate od oe dd de,
+  (2 * k + 2 <= 28)%nat ->
+  t_act t = Buy sh aps com rate crate -> valid_tx t = true ->
+  s_acb pre_d = Some od -> s_acb pre_e = Some oe ->
+  oe - eps <= od -> od <= oe + eps ->
+  sh <= T k -> aps <= T k -> com <= T k -> rate <= T 1 -> crate <= T 1 ->
+  0 <= od -> od <= T (2 * k + 1) ->
+  delta_nonsell dec t pre_d = Ok dd -> delta_nonsell exact t pre_e = Ok de ->
+  exists nd ne,
+    s_acb (d_post dd) = Some nd /\ s_acb (d_post de) = Some ne /\
+    ne = oe + (aps * sh * rate + com * crate) /\
+    ne - (eps + u (2 * k) * T 1 + (1 + 1 + 1 + 1) * u (2 * k + 2)) <= nd /\
+    nd <= ne + (eps + u (2 * k) * T 1 + (1 + 1 + 1 + 1) * u (2 * k + 2)).
+Print Assumptions C01_buy_row_error.
+
+(* the general form: separate bounds for the product price x shares (10^j1),
+   the rate (R), the commission in CAD (C), the old cost base (O), all values
+   of the arm below 10^J *)
+Theorem C01_buy_row_error_general : forall (j1 J : nat) (R C O eps : Qc) t pre_d pre_e sh aps com rate crate od oe dd de,
+  (j1 <= 28)%nat -> (J <= 28)%nat ->
+  t_act t = Buy sh aps com rate crate -> valid_tx t = true ->
+  s_acb pre_d = Some od -> s_acb pre_e = Some oe ->
+  oe - eps <= od -> od <= oe + eps ->
+  aps * sh <= T j1 -> rate <= R -> com * crate <= C -> 0 <= od -> od <= O ->
+  O + (T j1 + 1) * R + C + (1 + 1 + 1) <= T J ->
+  delta_nonsell dec t pre_d = Ok dd -> delta_nonsell exact t pre_e = Ok de ->
+  exists nd ne,
+    s_acb (d_post dd) = Some nd /\ s_acb (d_post de) = Some ne /\
+    ne = oe + (aps * sh * rate + com * crate) /\
+    ne - (eps + u j1 * R + (1 + 1 + 1 + 1) * u J) <= nd /\
+    nd <= ne + (eps + u j1 * R + (1 + 1 + 1 + 1) * u J).
+Proof. exact DecRowError.buy_row_error. Qed.
+Check C01_buy_row_error_general : forall (j1 J : nat) (R C O eps : Qc) t pre_d pre_e sh aps com rate crate od oe dd de,
+  (j1 <= 28)%nat -> (J <= 28)%nat ->
+  t_act t = Buy sh aps com rate crate -> valid_tx t = true ->
+  s_acb pre_d = Some od -> s_acb pre_e = Some oe ->
+  oe - eps <= od -> od <= oe + eps ->
+  aps * sh <= T j1 -> rate <= R -> com * crate <= C -> 0 <= od -> od <= O ->
+  O + (T j1 + 1) * R + C + (1 + 1 + 1) <= T J ->
+  delta_nonsell dec t pre_d = Ok dd -> delta_nonsell exact t pre_e = Ok de ->
+  exists nd ne,
+    s_acb (d_post dd) = Some nd /\ s_acb (d_post de) = Some ne /\
+    ne = oe + (aps * sh * rate + com * crate) /\
+    ne - (eps + u j1 * R + (1 + 1 + 1 + 1) * u J) <= nd /\
+    nd <= ne + (eps + u j1 * R + (1 + 1 + 1 + 1) * u J).
+Print Assumptions C01_buy_row_error_general.
+
+(* Non-vacuity (k = 2): 3.5 shares at 7.77 USD (rate 1.3456) plus 9.99
+   commission, bought from a cost base of 10/3 (exact) resp.
+   3.3333333333333333333333333333 (rounded; eps = 10^-28): every hypothesis
+   holds, both arms succeed, and the two new cost bases do differ. *)
+Local Open Scope Z_scope.
+Definition bre_t : tx := mk 100 (Buy (q 35 10) (q 777 100) (q 999 100) (q 13456 10000) (q 13456 10000)) default_aff.
+Definition bre_pre (acb : Qc) : status := {| s_sh := q 2 1; s_all := q 2 1; s_acb := Some acb |}.
+Definition bre_od : Qc := q 33333333333333333333333333333 10000000000000000000000000000.
+Definition bre_oe : Qc := q 10 3.
+Definition bre_eps : Qc := q 1 10000000000000000000000000000.
+Local Close Scope Z_scope.
+Example C01_buy_row_error_nonvacuous :
+  valid_tx bre_t = true /\
+  (bre_oe - bre_eps <= bre_od /\ bre_od <= bre_oe + bre_eps) /\
+  (q 35 10 <= T 2 /\ q 777 100 <= T 2 /\ q 999 100 <= T 2 /\ q 13456 10000 <= T 1) /\
+  (0 <= bre_od /\ bre_od <= T (2 * 2 + 1)) /\
+  is_ok (delta_nonsell dec bre_t (bre_pre bre_od)) = true /\
+  is_ok (delta_nonsell exact bre_t (bre_pre bre_oe)) = true /\
+  match delta_nonsell dec bre_t (bre_pre bre_od), delta_nonsell exact bre_t (bre_pre bre_oe) with
+  | Ok dd, Ok de => match s_acb (d_post dd), s_acb (d_post de) with
+                    | Some nd, Some ne => this nd <> this ne
+                    | _, _ => False
+                    end
+  | _, _ => False
+  end.
+Proof.
+  split; [vm_compute; reflexivity|].
+  split; [split; vm_compute; discriminate|].
+  split; [repeat split; vm_compute; discriminate|].
+  split; [split; vm_compute; discriminate|].
+  split; [vm_compute; reflexivity|]. split; [vm_compute; reflexivity|].
+  vm_compute. discriminate.
+Qed.
+
+(* Packaging of "all exact-arithmetic theorems apply verbatim": any statement
+   P proved for all runs of the exact ledger holds for the run of the ROUNDED
+   ledger on every history the representable arithmetic accepts. *)
+Theorem C01_exact_theorems_transfer :
+  forall P : option status -> list tx -> list delta -> option stop -> Prop,
+  (forall init txs ds o, run exact init txs = (ds, o) -> P init txs ds o) ->
+  forall init txs ds o,
+    run rep init txs = (ds, o) -> opstopb o = false ->
+    run dec init txs = (ds, o) /\ P init txs ds o.
+Proof. exact DecTransfer.exact_theorems_transfer. Qed.
+Check C01_exact_theorems_transfer :
+  forall P : option status -> list tx -> list delta -> option stop -> Prop,
+  (forall init txs ds o, run exact init txs = (ds, o) -> P init txs ds o) ->
+  forall init txs ds o,
+    run rep init txs = (ds, o) -> opstopb o = false ->
+    run dec init txs = (ds, o) /\ P init txs ds o.
+Print Assumptions C01_exact_theorems_transfer.
